@@ -98,13 +98,17 @@ Apply(f(_)) ==   \* f(c) is the record of new hidden values of copy c
   /\ draws' = [c \in Copies |-> f(c).draws]
 
 -----------------------------------------------------------------------------
+(* hidden state of copy c right after construction with the given settings *)
+Constructed(c, m, s, n, p) ==
+  LET d  == IF Kind = "Fourier" THEN DkOf(p, m) ELSE None
+      ms == IF Kind = "Fourier" THEN ModesOf(d, n) ELSE None
+  IN [gm |-> m, dk |-> d, modes |-> ms] @@ ResetTo(c, NewObj(c, s), m, d, ms, n)
+
 Init ==
   /\ pm \in InitModels /\ seed \in SeedVals /\ modeNo \in ModeNos
   /\ period \in (IF Kind = "Fourier" THEN Periods ELSE {Keep})
   /\ op = [name |-> "Init"]
-  /\ LET f(c) == LET d  == IF Kind = "Fourier" THEN DkOf(period, pm) ELSE None
-                     ms == IF Kind = "Fourier" THEN ModesOf(d, modeNo) ELSE None
-                 IN [gm |-> pm, dk |-> d, modes |-> ms] @@ ResetTo(c, NewObj(c, seed), pm, d, ms, modeNo)
+  /\ LET f(c) == Constructed(c, pm, seed, modeNo, period)
      IN /\ gm    = [c \in Copies |-> f(c).gm]
         /\ sobj  = [c \in Copies |-> f(c).sobj]
         /\ ztag  = [c \in Copies |-> f(c).ztag]
